@@ -222,6 +222,9 @@ func checkC15(e *Env, r *Report) {
 	r.Sample(recs[0])
 	r.Sample(recs[len(recs)-1])
 	runAaLogTrace(e, r, recs, "C15")
+	if r.Fatal == "" {
+		lineModel(e, r, "C15")
+	}
 }
 
 func shapeKey(sh []fieldSpec) string {
